@@ -27,13 +27,16 @@ logger = logging.getLogger(__name__)
 
 
 def _reject_value_sharing(decoder):
-    """Refuse CBOR value sharing (tags 28 and 29) - not used by SUIT, allows tiny inputs to expand exponentially."""
-    raise ValueError("CBOR value sharing is not supported")
+    """Refuse CBOR value sharing (tags 28 and 29) and string references (tags 25 and 256).
+
+    Not used by SUIT; they allow small inputs to expand to huge values (exponentially for value sharing).
+    """
+    raise ValueError("CBOR value sharing and string references are not supported")
 
 
 try:
     cbor2.loads(b"\x00", semantic_decoders={})
-    _CBOR_LOADS_OPTIONS = {"semantic_decoders": {28: _reject_value_sharing, 29: _reject_value_sharing}}
+    _CBOR_LOADS_OPTIONS = {"semantic_decoders": {tag: _reject_value_sharing for tag in (25, 28, 29, 256)}}
 except TypeError:
     # cbor2 version without configurable semantic decoders
     _CBOR_LOADS_OPTIONS = {}
